@@ -90,31 +90,32 @@ Theorem C03_likelihood_is_prediction_error_decomposition (a : 'cV[F]_n) (Q : 'M[
   = \sum_(x <- krun a Q ps) nll_gauss flog flog2pi (f_y0 (ff x)) (f_F (ff x)) (p_y (fp x)).
 Proof. exact: prediction_error_decomposition. Qed.
 
-(* 4. contributions sum to the total (rescale_variance = False) *)
-Theorem C03_contributions_sum (fs : seq (fper M n nw)) :
-  sum_lg M (contributions fs) = l_nll (likelihood false fs)
-  /\ l_nll (likelihood false fs) = 2%:R^-1 * ((N_of fs)%:R * flog2pi + LD_of fs + QF_of fs).
+(* 4. the per-period contributions sum to the total, with and without variance rescaling, for every
+      list of period records (model of the code as repaired by fixes/C03_1.patch; the unrepaired code
+      leaves the contributions unscaled when rescale_variance=True and the check reports it) *)
+Theorem C03_contributions_sum (b : bool) (fs : seq (fper M n nw)) :
+  sum_lg M (contributions (l_var_scale (likelihood b fs)) fs) = l_nll (likelihood b fs).
 Proof. exact: contributions_sum. Qed.
+
+Theorem C03_likelihood_closed_form (fs : seq (fper M n nw)) :
+  l_nll (likelihood false fs) = 2%:R^-1 * ((N_of fs)%:R * flog2pi + LD_of fs + QF_of fs).
+Proof. exact: likelihood_closed_form. Qed.
 
 (* 5. periods without observations contribute nothing and leave the state as predicted *)
 Theorem C03_empty_period_contributes_zero (a : 'cV[F]_n) (Q : 'M[F]_n) (p : period M n nw) (f : frec p) :
   step_spec a Q f -> p_ny p = 0%N ->
-  [/\ contribution (mkFper p f) = 0, qf (mkFper p f) = 0, ld (mkFper p f) = 0,
+  [/\ forall vs, contribution vs (mkFper p f) = 0, qf (mkFper p f) = 0, ld (mkFper p f) = 0,
       f_a1 f = f_a0 f & f_Q1 f = f_Q0 f].
 Proof. exact: empty_period. Qed.
 
-(* 6. rescale_variance = True: var_scale = sum pe' F^-1 pe / sum n_t, the reported likelihood is the one
-      concentrated with respect to a common variance factor; the contributions are not rescaled by the
-      code and differ from the total by the stated gap (guarded statement, see the refutation by the
-      harness: `contributions sum to the total` fails on the implementation when rescale_variance=True) *)
+(* 6. rescale_variance = True: var_scale = sum pe' F^-1 pe / sum n_t and the reported likelihood is the one
+      concentrated with respect to a common variance factor *)
 Theorem C03_rescale_variance_law (fs : seq (fper M n nw)) :
   N_of fs != 0%N -> QF_of fs != 0 ->
   let vs := QF_of fs / (N_of fs)%:R in
-  [/\ l_var_scale (likelihood true fs) = vs,
-      l_nll (likelihood true fs)
-        = 2%:R^-1 * ((N_of fs)%:R * flog2pi + (LD_of fs + (N_of fs)%:R * flog vs) + (N_of fs)%:R) &
-      sum_lg M (contributions fs) - l_nll (likelihood true fs)
-        = 2%:R^-1 * (QF_of fs - (N_of fs)%:R - (N_of fs)%:R * flog vs)].
+  l_var_scale (likelihood true fs) = vs /\
+  l_nll (likelihood true fs)
+    = 2%:R^-1 * ((N_of fs)%:R * flog2pi + (LD_of fs + (N_of fs)%:R * flog vs) + (N_of fs)%:R).
 Proof. exact: rescaled_likelihood. Qed.
 
 Theorem C03_rescale_variance_no_observations (fs : seq (fper M n nw)) :
@@ -133,6 +134,7 @@ Print Assumptions C03_tower_nll.
 Print Assumptions C03_schur.
 Print Assumptions C03_likelihood_is_prediction_error_decomposition.
 Print Assumptions C03_contributions_sum.
+Print Assumptions C03_likelihood_closed_form.
 Print Assumptions C03_empty_period_contributes_zero.
 Print Assumptions C03_rescale_variance_law.
 Print Assumptions C03_rescale_variance_no_observations.
